@@ -1,5 +1,6 @@
 pub mod echo;
 pub mod enc;
+pub mod esc;
 pub mod hash;
 pub mod nsprobe;
 pub mod lex;
@@ -15,6 +16,7 @@ pub fn find(name: &str) -> Option<LaneFn> {
     Some(match name {
         "echo" => echo::run,
         "enc" => enc::run,
+        "esc" => esc::run,
         "hash" => hash::run,
         "nsprobe" => nsprobe::run,
         "lex" => lex::run,
